@@ -158,13 +158,20 @@ def c20b(ck, prog):
         ck.ob(R, "imf:writes", ok, f.loc(None),
               "" if ok else "into_imf_fixdate writes between %d and %d bytes (unchecked, one per index) into its %s-byte MaybeUninit buffer before transmuting it to [u8; %s]" % (lo, hi, cap, cap),
               how="every path performs exactly %d unchecked writes; buffer = %s bytes" % (hi, cap))
-        # every write goes to `buf[i]` and is followed by `i += 1` before the next write
+        # every write goes to `buf[idx]` for one running index variable and is followed by `idx += 1` before the next write
+        gi = f.calls_to(r"get_unchecked_mut$")
+        idx_locals = set()
+        for c in gi:
+            st = f.origin(c.args[1])
+            idx_locals.add(st[-1][1] if st and st[-1][0] == "multi" else None)
+        okidx = len(idx_locals) == 1 and None not in idx_locals and len(gi) == len(writes)
+        ck.ob(R, "imf:one-running-index", okidx, f.loc(None), "" if okidx else "the buffer slots in into_imf_fixdate are not all addressed by one running index variable", how="get_unchecked_mut(idx) x%d, same variable" % len(gi))
+        idx = next(iter(idx_locals)) if okidx else None
         incs = set()
         for bi, b in enumerate(f.blocks):
             for st in b["st"]:
                 if st["k"] == "=" and st["r"][0] == "bin" and st["r"][1] in ("Add", "AddWithOverflow") and st["r"][3][0] == "k" and guards.const_int(st["r"][3][1]) == 1:
-                    nm = [n for n, ps in f.vars.items() for p in ps if st["r"][2][0] in ("c", "m") and p[0] == st["r"][2][1][0]]
-                    if "i" in nm:
+                    if st["r"][2][0] in ("c", "m") and st["r"][2][1][0] == idx:
                         incs.add(bi)
         bad = []
         for w in sorted(writes):
@@ -173,12 +180,11 @@ def c20b(ck, prog):
             seen = f.reachable_from(nxt, avoid=tuple(incs)) if nxt is not None else set()
             if seen & writes:
                 bad.append(w)
-        ok = not bad and len(incs) >= len(writes)
-        ck.ob(R, "imf:index-advances", ok, f.loc(None), "" if ok else "a write in into_imf_fixdate can be followed by another write without `i += 1` in between (bb %s)" % bad, how="%d writes, each followed by `i += 1`" % len(writes))
-        # index operand of get_unchecked_mut is `i`
-        gi = f.calls_to(r"get_unchecked_mut$")
-        okidx = all(decision.describe_deep(f, c.args[1], 2) in ("var:i",) for c in gi) and len(gi) == len(writes)
-        ck.ob(R, "imf:index-is-i", okidx, f.loc(None), "" if okidx else "a buffer slot in into_imf_fixdate is addressed by something other than the running index `i`", how="get_unchecked_mut(i) x%d" % len(gi))
+        ok = okidx and not bad and len(incs) >= len(writes)
+        ck.ob(R, "imf:index-advances", ok, f.loc(None), "" if ok else "a write in into_imf_fixdate can be followed by another write without the index having been incremented in between (bb %s)" % bad, how="%d writes, each followed by `idx += 1`" % len(writes))
+        init = [d for d in f.defs().get(idx, []) if d[2] == "assign" and d[3]["r"][0] == "use" and d[3]["r"][1][0] == "k"] if idx is not None else []
+        ok = len(init) == 1 and guards.const_int(init[0][3]["r"][1][1]) == 0
+        ck.ob(R, "imf:index-starts-at-0", ok, f.loc(None), "" if ok else "the running index of into_imf_fixdate does not start at 0", how="idx = 0")
     # name-table indices: get_unchecked(weekday().num_days_from_sunday()) / get_unchecked(month_index())
     for c in f.calls_to(r"<impl \[T\]>::get_unchecked$"):
         d = decision.describe_deep(f, c.args[1], 4)
